@@ -52,3 +52,8 @@ package dataflow
 //@   ensures function_contract: node != nil && node.callee.Callee != nil && node.callee.Type != InterfaceContract && old(has(s.DataFlowContracts, node.callee.Callee.String())) ==> result == old(s.DataFlowContracts[node.callee.Callee.String()])
 //@   ensures no_contract: node != nil && node.callee.Callee != nil && node.callee.Type != InterfaceContract && !old(has(s.DataFlowContracts, node.callee.Callee.String())) ==> result == nil
 //@   ensures nil_node: node == nil ==> result == nil
+
+//@ func AnalyzerState.HasExternalContractSummary
+//@   property C05 C10
+//@   pure
+//@   reads AnalyzerState.keys, AnalyzerState.DataFlowContracts, map(string;string), map(string;*SummaryGraph)
